@@ -284,7 +284,7 @@ def run(tier, t0):
         part.nontrivial_count += 1
         part.check("text", check_text, inp)
     from ..fuzz import driver
-    fuzz_note = driver.campaign(part, "text", runs=160000 if tier == "quick" else 4000000)
+    fuzz_note = driver.campaign(part, "text", runs=160000 if tier == "quick" else 1500000)
     rule = ("texts = 1-5 chunks: filler outside / inside [A-Za-z:/], arbitrary Unicode, planted valid v2/v3 vectors (incl. "
             "minimal 26-character v2 vectors) between random delimiters, v4 vectors, near-valid vectors (<= 2 mutations), "
             "repeats of an earlier vector in the same or another spelling, vectors glued to vector-like characters, "
